@@ -56,6 +56,10 @@ def install(pid, m, res=None):
     os.makedirs(d, exist_ok=True)
     shutil.copy("%s/%s.diff" % (out, m), d + "/patch.diff")
     shutil.copy("%s/%s_demo.py" % (out, m), d + "/demo.py")
+    if m in ("b2", "b3"):          # these demonstrations import helper modules written next to them
+        import glob
+        for f in glob.glob(out + "/*.py"):
+            shutil.copy(f, d + "/" + os.path.basename(f))
     meta = json.load(open("%s/%s.json" % (out, m)))
     meta = {"property": pid, "summary": meta.get("summary"), "needs": meta.get("needs"), "clause": meta.get("clause"),
             "what_changes": meta.get("what_changes"), "why_property_still_holds": meta.get("why_property_still_holds"),
